@@ -8,7 +8,12 @@ LEVEL = "proof"
 IMPORTS = ["From MuxV Require Import Base.Num Base.FInst Base.Interp Model.Controls Model.ControlsF."]
 
 
-def coq_input(val):
+def coq_input(val, cps=None):
+    if callable(val):
+        # a function of span: its values at the control points, looked up by the span fraction (evaluated on the array, as the code does)
+        cps = np.array(cps, dtype=float)
+        vals = np.array(val(cps), dtype=float) * np.ones(len(cps))
+        return "(CFun (olookup [%s]))" % "; ".join("(%s, %s)" % (fhex(float(c_)), fhex(float(v_))) for c_, v_ in zip(cps, vals))
     if isinstance(val, np.ndarray):
         return "(CTable [%s])" % "; ".join("(%s, %s)" % (fhex(r[0]), fhex(r[1])) for r in val)
     return "(CConst %s)" % fhex(val)
@@ -73,7 +78,7 @@ def seg_cases(MX, H, sc, name, cs, cases, descr, chk, ac):
         mx = []
         for key in mixing:
             d = H.import_value(key, cs, a._unit_sys, 0.0)
-            mx.append("(%s, %s, %s)" % (cbool(sym[key]), fhex(float(mixing[key])), coq_input(d)))
+            mx.append("(%s, %s, %s)" % (cbool(sym[key]), fhex(float(mixing[key])), coq_input(d, seg.cp_span_locs)))
         cases.append("chk_delta %s %s %s %s %s [%s] %s %s" % (fhex(np.pi / 180.0), cbool(seg.side == "left"), fhex(root),
                                                              fhex(tip), fhex(sat), "; ".join(mx), flist(seg.cp_span_locs),
                                                              flist(seg._delta_flap)))
@@ -137,7 +142,7 @@ def unit_control(chk, MX):
         chk.violation("unit-control:differs", dict(kind="controls", setting={"elevator": [val, "rad"]}, differences=bad[:6]))
 
 
-def function_control(chk, MX, H):
+def function_control(chk, MX, H, cases, descr):
     """a control input given as a function of the span fraction (accepted like the functions of twist, sweep ...): the same mapping,
     confined to the control surface; and the deflections listed in degrees are the ones listed in radians"""
     rng = chk.rng
@@ -153,6 +158,7 @@ def function_control(chk, MX, H):
             sc = gen.build_scene(MX, {"scene": {"atmosphere": {"rho": 0.0023769}}}, [("a", ac, {"velocity": 80.0, "alpha": 2.0}, {})])
             sc.set_aircraft_control_state(control_state=cs)
             a = sc._airplanes["a"]
+            seg_cases(MX, H, sc, "a", cs, cases, descr, chk, ac)          # (Model/Controls.v with a CFun input, bit for bit)
             for seg in a.segments:
                 if seg._has_control_surface:
                     exp = independent_delta(a, seg, cs, H, ac)
@@ -301,7 +307,7 @@ def run(chk):
         if not (idx and np.all(sign * dCL > 0)):
             chk.violation("sign-convention:%s:%s" % (ctrl, seg), dict(kind="controls", control=ctrl, segment=seg, dCL=dCL.tolist()))
     unit_control(chk, MX)
-    function_control(chk, MX, H)
+    function_control(chk, MX, H, cases, descr)
     listed_aircraft(chk, MX, H)
     caller_table(chk, MX, H)
     failing, nfiles, errors = common.run_cases("C15", IMPORTS, [], cases)
